@@ -3,10 +3,10 @@
 
 filter := or ; or := and ("or" and)* ; and := term ("and" term)* ;
 term := "(" filter ")" | "not" path | path cmpOp literal | path ; path := id ("->" id)*
-Tokens are maximal: `notes` is one name.  and binds tighter than or; both left-associative."""
+Tokens are maximal: `notes` is one name.  A number is spelled as in ZINC, which includes INF, -INF and NaN.  and binds tighter than or; both left-associative."""
 import re
 
-TOK = re.compile(r'\s*(?:(?P<id>[a-z][a-zA-Z0-9_]*)|(?P<op>==|!=|<=|>=|<|>|->|\(|\))|(?P<lit>"(?:[^"\\]|\\.)*"|`[^`]*`|@[a-zA-Z0-9_:\-.~]+|-?[0-9][0-9_]*(?:\.[0-9_]+)?(?:[eE][+-]?[0-9]+)?|true|false))')
+TOK = re.compile(r'\s*(?:(?P<id>[a-z][a-zA-Z0-9_]*)|(?P<op>==|!=|<=|>=|<|>|->|\(|\))|(?P<lit>"(?:[^"\\]|\\.)*"|`[^`]*`|@[a-zA-Z0-9_:\-.~]+|-?[0-9][0-9_]*(?:\.[0-9_]+)?(?:[eE][+-]?[0-9]+)?|-?INF\b|NaN\b|true|false))')
 
 
 class Has(object):
